@@ -129,6 +129,51 @@ pub mod phase {
     }
 }
 
+pub mod hz_source {
+    use super::*;
+
+    /// a frequency signal that keeps yielding real frames while reporting itself exhausted from an
+    /// arbitrary point on (what add_amp / mul_amp / zip_map of unequal-length inputs do)
+    pub struct Freq<'a> {
+        pub vals: [f64; 3],
+        pub pulls: &'a mut usize,
+        pub exhausted_from: usize,
+    }
+    impl<'a> Signal for Freq<'a> {
+        type Frame = f64;
+        fn next(&mut self) -> f64 {
+            let v = self.vals[if *self.pulls < 3 { *self.pulls } else { 2 }];
+            *self.pulls += 1;
+            v
+        }
+        fn is_exhausted(&self) -> bool {
+            *self.pulls >= self.exhausted_from
+        }
+    }
+
+    /// Hz: one frequency frame per step and step == that frame / rate, whatever the frequency signal
+    /// reports about its own exhaustion
+    #[kani::proof]
+    #[kani::unwind(6)]
+    pub fn one_frame_per_step_exhausted_or_not() {
+        let ks: [u16; 3] = kani::any();
+        let vals = [ks[0] as f64, ks[1] as f64, ks[2] as f64];
+        let exhausted_from: usize = kani::any();
+        kani::assume(exhausted_from <= 4);
+        let mut pulls = 0usize;
+        let mut hz = signal::rate(48000.0).hz(Freq { vals, pulls: &mut pulls, exhausted_from });
+        for n in 0..3 {
+            let s = hz.step();
+            assert!(s == vals[n] / 48000.0, "phase advances by frequency/rate per frame");
+        }
+        drop(hz);
+        assert!(pulls == 3, "a variable-frequency oscillator consumes exactly one frequency frame per output frame");
+        kani::cover!(exhausted_from == 0 && ks[0] != 0, "source reports exhausted from the start");
+        kani::cover!(exhausted_from == 2 && ks[2] != 0, "source reports exhausted mid-way");
+        kani::cover!(true, "end");
+    }
+}
+
 pub mod wave {
     use super::*;
 
